@@ -171,3 +171,33 @@ theorem nodup_cons_fresh {α : Type} (l : List α) (id : α → Nat) (x : α)
   exact hf y hy hyi
 
 end ALock
+
+namespace ALock
+
+/-- pointwise non-increasing update -/
+theorem sum_map_map_le {α : Type} (l : List α) (g : α → α) (h : α → Nat)
+    (hle : ∀ x ∈ l, h (g x) ≤ h x) : ((l.map g).map h).sum ≤ (l.map h).sum := by
+  induction l with
+  | nil => simp
+  | cons a t ih =>
+    have h1 := hle a (List.mem_cons_self ..)
+    have h2 := ih (fun x hx => hle x (List.mem_cons_of_mem _ hx))
+    simp only [List.map_cons, List.sum_cons]
+    omega
+
+/-- pointwise non-increasing update that drops by `d` at some member -/
+theorem sum_map_map_drop {α : Type} (l : List α) (g : α → α) (h : α → Nat) (d : Nat)
+    (hle : ∀ x ∈ l, h (g x) ≤ h x) (x : α) (hx : x ∈ l) (hd : h (g x) + d ≤ h x) :
+    ((l.map g).map h).sum + d ≤ (l.map h).sum := by
+  induction l with
+  | nil => cases hx
+  | cons a t ih =>
+    simp only [List.map_cons, List.sum_cons]
+    rcases List.mem_cons.mp hx with rfl | hxt
+    · have := sum_map_map_le t g h (fun y hy => hle y (List.mem_cons_of_mem _ hy))
+      omega
+    · have h1 := hle a (List.mem_cons_self ..)
+      have := ih (fun y hy => hle y (List.mem_cons_of_mem _ hy)) hxt
+      omega
+
+end ALock
